@@ -254,6 +254,8 @@ def check(model: Model, run: Run) -> None:
     operator_agreement(model, run)
     exact_markers(model, run)
     empty_values_accepted(model, run)
+    serialisers_are_pure(model, run)
+    no_size_based_rejection(model, run)
     from .c19 import parse_results_fresh
     parse_results_fresh(model, run, "sansldap._filter", "J5-parse-results-are-fresh", "from_string(str(f)) == f")
 
@@ -418,6 +420,23 @@ def exact_markers(model: Model, run: Run) -> None:
         raise AnalysisError("J9 self-check failed on its fixture")
     n = 0
     for fi in fa.parser_functions:
+        # a keyword recognised by its first letters: `rest.startswith("dn")` also takes `dnSubtreeMatch` for the marker
+        for c in walk_no_nested(fi.node):
+            lit = None
+            if isinstance(c, ast.Call) and isinstance(c.func, ast.Attribute) and c.func.attr == "startswith" and c.args and isinstance(c.args[0], ast.Constant) and \
+                    isinstance(c.args[0].value, (str, bytes)):
+                lit = c.args[0].value
+            elif isinstance(c, ast.Compare) and len(c.ops) == 1 and isinstance(c.ops[0], (ast.Eq, ast.NotEq)) and isinstance(c.left, ast.Subscript) and \
+                    isinstance(c.left.slice, ast.Slice) and c.left.slice.lower is None and isinstance(c.comparators[0], ast.Constant) and isinstance(c.comparators[0].value, (str, bytes)):
+                lit = c.comparators[0].value
+            if lit is None:
+                continue
+            txt = lit.decode("latin-1") if isinstance(lit, bytes) else lit
+            if txt.isalpha():
+                run.ob("J9-markers-compared-exactly", False, {"function": fi.name, "prefix_test": norm(c)[:60]})
+                run.fail(Finding("J9-markers-compared-exactly", fi.qualname, norm(c)[:80],
+                                 f"{fi.name} recognises the keyword {txt!r} by prefix (`{norm(c)[:60]}`): a longer name that starts with it (a matching rule such as "
+                                 f"`{txt}SubtreeMatch`) is cut in two, so that filter does not parse back to itself", model.loc(fi.module, c)))
         n += 1
         bad = _case_folded_compares(fi.node)
         run.ob("J9-markers-compared-exactly", not bad, {"function": fi.name})
@@ -426,6 +445,62 @@ def exact_markers(model: Model, run: Run) -> None:
                              f"{fi.name} decides `{norm(c)[:80]}` on case-folded text: a spelling the serialiser never writes is taken for the marker, although with that "
                              "spelling it is a valid name of its own (an extensible match with rule `DN` no longer parses back to itself)", model.loc(fi.module, c)))
     run.floor("filter string parser functions", n, 4)
+
+
+def serialisers_are_pure(model: Model, run: Run) -> None:
+    """J11: `__str__` of a filter class (and the module-level serialising helper) is a function of the fields as they are now:
+    it stores nothing on the instance and reads no instance dictionary.  The classes are frozen but hold mutable lists, so a
+    remembered rendering goes stale and `from_string(str(f))` no longer equals f."""
+    n = 0
+    targets = []
+    for cq in model.subclasses(f"{FILTER}.LDAPFilter"):
+        m_ = model.classes[cq].methods.get("__str__")
+        if m_ is not None:
+            targets.append(m_)
+    for fi in targets:
+        n += 1
+        bad = None
+        for x in ast.walk(fi.node):
+            if isinstance(x, ast.Attribute) and x.attr == "__dict__":
+                bad = f"`{norm(x)}` (the instance dictionary)"
+            elif isinstance(x, ast.Attribute) and isinstance(x.ctx, (ast.Store, ast.Del)) and isinstance(x.value, ast.Name) and x.value.id == "self":
+                bad = f"assignment to `{norm(x)}`"
+            elif isinstance(x, ast.Call) and norm(x.func) in ("object.__setattr__", "setattr", "vars"):
+                bad = f"`{norm(x)[:50]}`"
+            elif isinstance(x, (ast.Global, ast.Nonlocal)):
+                bad = "global state"
+            elif isinstance(x, ast.FunctionDef) and x is fi.node and any(norm(d).split("(")[0].split(".")[-1] in ("lru_cache", "cache", "cached_property") for d in x.decorator_list):
+                bad = "a memoising decorator"
+            if bad:
+                break
+        run.ob("J11-serialisers-are-pure", bad is None, {"method": fi.qualname.split("sansldap.")[-1]})
+        if bad:
+            run.fail(Finding("J11-serialisers-are-pure", fi.qualname, bad[:80],
+                             f"{fi.qualname.split('sansldap.')[-1]} uses {bad}: the text of a filter must be computed from its current fields every time "
+                             "(sub-filter lists are mutable), otherwise it stops matching the object", model.loc(fi.module, fi.node)))
+    run.floor("filter __str__ methods", n, 8)
+
+
+def no_size_based_rejection(model: Model, run: Run) -> None:
+    """J12: the parser refuses a filter for its syntax, never for how many structural characters it contains or for an
+    interpreter limit consulted up front: `text.count("(")` measures the number of nodes, not nesting, so a wide but shallow
+    filter (which str() produces for a long OR) would no longer parse back."""
+    from ..anchors import filt as filter_anchors
+    from ..srcmodel import dominating_literals
+    fa = filter_anchors(model)
+    n = 0
+    for fi in fa.parser_functions + [fa.entry]:
+        for r in walk_no_nested(fi.node):
+            if not isinstance(r, ast.Raise):
+                continue
+            n += 1
+            bad = [l for l in dominating_literals(fi.node, r) if ".count(" in l or "getrecursionlimit" in l]
+            run.ob("J12-no-rejection-by-size", not bad, {"function": fi.name, "line": r.lineno})
+            if bad:
+                run.fail(Finding("J12-no-rejection-by-size", fi.qualname, bad[0][:80],
+                                 f"{fi.name} raises when `{bad[0][:70]}`: a count of characters / an interpreter limit, not the structure of the text, decides; "
+                                 "filters of any fan-out must parse back", model.loc(fi.module, r)))
+    run.floor("raise statements in the filter string parser and its entry", n, 10)
 
 
 def empty_values_accepted(model: Model, run: Run) -> None:
